@@ -34,6 +34,7 @@ type Doc struct {
 type genCfg struct {
 	Types, Enums, Macros, URLs, Servers, Tags int
 	RPC                                       bool
+	PathRuleFuzz                              bool   // only the rule of a Path parameter is an edge value; the rest of the document is clean
 	RuleFuzz                                  bool   // schema rules with edge values ({type: ""}, {or: []}, ...): mostly invalid documents
 	PathBodyFuzz                              bool   // Path bodies that are not objects (type references incl. regex types, arrays, scalars)
 	AliasTypes                                int    // types whose body is just a reference to another type (chains)
@@ -445,7 +446,7 @@ func generateDoc(r *rng, cfg genCfg) *Doc {
 	}
 	for i := 0; i < cfg.URLs; i++ {
 		path := fmt.Sprintf("/res%d", i)
-		withID := r.chance(400)
+		withID := r.chance(400) || cfg.PathRuleFuzz
 		if withID {
 			path += "/{id}"
 		}
@@ -457,7 +458,7 @@ func generateDoc(r *rng, cfg genCfg) *Doc {
 		u := &Node{KW: "URL", Params: path}
 		if withID && r.chance(600) {
 			pb := []string{"{", `  "id": 1`, "}"}
-			if cfg.RuleFuzz && r.chance(500) {
+			if (cfg.RuleFuzz && r.chance(500)) || cfg.PathRuleFuzz {
 				pb = []string{"{", `  "id": 1 // ` + fuzzRules[r.n(len(fuzzRules))], "}"}
 			}
 			if cfg.PathBodyFuzz {
@@ -1049,7 +1050,7 @@ func lineNoise(p *Project, r *rng) Project {
 	if len(files) == 0 {
 		return q
 	}
-	for k := 1 + r.n(4); k > 0; k-- {
+	for k := 1 + r.n(5); k > 0; k-- {
 		path := files[r.n(len(files))]
 		txt := string(q.content(path))
 		if txt == "" {
@@ -1075,7 +1076,7 @@ func lineNoise(p *Project, r *rng) Project {
 		case strings.HasSuffix(ln, "\n"):
 			body, end = ln[:len(ln)-1], "\n"
 		}
-		switch r.n(8) {
+		switch r.n(12) {
 		case 0:
 			body += " "
 		case 1:
@@ -1096,8 +1097,59 @@ func lineNoise(p *Project, r *rng) Project {
 			}
 		case 7:
 			body += " #"
+		case 8, 9, 10, 11:
+			// a stray byte somewhere in the line: NUL (twice as likely), DEL, a control byte, bytes that
+			// are not UTF-8, a Unicode line separator
+			stray := []string{"\x00", "\x00", "\x7f", "\x01", "\xff", "\xc3", "\xe2\x80\xa8", "\xef\xbb\xbf"}[r.n(8)]
+			at := r.n(len(body) + 1)
+			body = body[:at] + stray + body[at:]
 		}
 		lines[i] = body + end
+		q.set(path, []byte(strings.Join(lines, "")))
+	}
+	if r.chance(250) {
+		// the same stray byte at two or three places of one file: once inside a note or remark
+		// (after "//" or "#"), once inside a free-text body (the lines after a Description keyword),
+		// once anywhere - what the first one does to the scanner's bookkeeping meets the second one
+		stray := []string{"\x00", "\x00", "\x00", "\x7f", "\x01", "\xff", "\xe2\x80\xa8"}[r.n(7)]
+		path := files[r.n(len(files))]
+		lines := strings.SplitAfter(string(q.content(path)), "\n")
+		var notes, texts []int
+		inText := false
+		for i, ln := range lines {
+			t := strings.TrimSpace(ln)
+			switch {
+			case strings.HasPrefix(t, "Description"):
+				inText = true
+			case inText && t != "" && !strings.HasPrefix(t, "(") && !strings.HasPrefix(t, ")"):
+				texts = append(texts, i)
+				if len(texts) > 0 && r.chance(300) {
+					inText = false
+				}
+			}
+			if strings.Contains(ln, "// ") || strings.HasPrefix(t, "#") {
+				notes = append(notes, i)
+			}
+		}
+		put := func(i int, after string) {
+			ln := lines[i]
+			at := r.n(len(strings.TrimRight(ln, "\r\n")) + 1)
+			if after != "" {
+				if k := strings.Index(ln, after); k >= 0 {
+					at = k + len(after) + r.n(len(strings.TrimRight(ln[k+len(after):], "\r\n"))+1)
+				}
+			}
+			lines[i] = ln[:at] + stray + ln[at:]
+		}
+		if len(notes) > 0 {
+			put(notes[r.n(len(notes))], "//")
+		}
+		if len(texts) > 0 {
+			put(texts[r.n(len(texts))], "")
+		}
+		if r.chance(500) && len(lines) > 0 {
+			put(r.n(len(lines)), "")
+		}
 		q.set(path, []byte(strings.Join(lines, "")))
 	}
 	return q
